@@ -67,8 +67,20 @@ PRIM = re.compile(r"^([usf])(\d+)(be|le)?$")
 BITS = re.compile(r"^b(\d+)$")
 
 
+class _Outward(dict):
+    """a scope whose missing names are looked up in the enclosing scopes (second pass of C19: see Schema.scope_fallback)"""
+    def __missing__(self, key):
+        parent = dict.get(self, "_")
+        while parent is not None:
+            if key in parent:
+                return parent[key]
+            parent = parent.get("_")
+        raise KeyError(key)
+
+
 class Schema:
-    def __init__(self, doc, enum_base=None):
+    def __init__(self, doc, enum_base=None, scope_fallback=False):
+        self.scope_fallback = scope_fallback    # grant helper types the names of the sequences they are used in
         self.doc = doc
         self.enum_base = enum_base      # primitive type granted to enum fields that name only their table (second pass of C19)
         self.types = doc.get("types") or {}
@@ -77,7 +89,10 @@ class Schema:
 
     def parse(self, data, start=0):
         st = Stream(data, start)
-        fields = self.parse_seq(self.doc.get("seq") or [], st, None)
+        try:
+            fields = self.parse_seq(self.doc.get("seq") or [], st, None)
+        except RecursionError:
+            raise Uninterpretable("recursion", "a type or instance of the schema refers to itself without end")
         return fields, st.tell()
 
     # -- expressions -------------------------------------------------------------------------
@@ -88,11 +103,14 @@ class Schema:
             return e
         if not isinstance(e, str):
             raise Uninterpretable("expression", "not a string or integer: %r" % (e,))
-        env = {"this": this, "_": last if last is not None else this.get("_"), "len_": len, "sum_": sum, "min_": min, "max_": max, "abs_": abs,
-               "__builtins__": {}}
-        for k, v in this.items():
-            if isinstance(k, str) and k.isidentifier() and k not in env:
-                env[k] = v
+        env = {"this": _Outward(this) if self.scope_fallback else this, "_": last if last is not None else this.get("_"), "len_": len, "sum_": sum, "min_": min,
+               "max_": max, "abs_": abs, "__builtins__": {}}
+        scope = this
+        while scope is not None:
+            for k, v in scope.items():
+                if isinstance(k, str) and k.isidentifier() and k not in env:
+                    env[k] = v
+            scope = scope.get("_") if self.scope_fallback else None
         try:
             return eval(e, env)
         except Exception as ex:
